@@ -89,13 +89,15 @@ Definition scan_ok (k : piece) (uf ur : option N) (cap : bool) (t : N) (pr : opt
   | None => false
   end.
 
-Definition scan_all : bool :=
+Lemma scan_all_true :
   forallb (fun k => forallb (fun uf => forallb (fun ur => forallb (fun cap => forallb (fun t =>
   forallb (fun pr => forallb (fun ck => scan_ok k uf ur cap t pr ck) dom_check) dom_promo) dom_sq)
-  [true; false]) dom_opt8) dom_opt8) dom_kind.
-
-Lemma scan_all_true : scan_all = true.
+  [true; false]) dom_opt8) dom_opt8) dom_kind = true.
 Proof. vm_compute. reflexivity. Qed.
+
+Lemma forallb_In : forall (A : Type) (f : A -> bool) (l : list A) (x : A),
+  forallb f l = true -> In x l -> f x = true.
+Proof. intros A f l x H. exact (proj1 (forallb_forall f l) H x). Qed.
 
 Lemma dom_kind_In : forall k, k <> PNone -> In k dom_kind.
 Proof. intros [| | | | | |] H; cbn; try tauto. Qed.
@@ -138,14 +140,13 @@ Theorem san_scan : forall k uf ur cap t pr ck,
   san_parse (san_text k uf ur cap t pr ck) = Some (san_query k uf ur cap t pr).
 Proof.
   intros k uf ur cap t pr ck Hk Hf Hr Ht Hp Hc.
-  pose proof scan_all_true as H. unfold scan_all in H.
-  rewrite forallb_forall in H. specialize (H k (dom_kind_In k Hk)).
-  rewrite forallb_forall in H. specialize (H uf (dom_opt8_In uf Hf)).
-  rewrite forallb_forall in H. specialize (H ur (dom_opt8_In ur Hr)).
-  rewrite forallb_forall in H. specialize (H cap (dom_bool_In cap)).
-  rewrite forallb_forall in H. specialize (H t (dom_sq_In t Ht)).
-  rewrite forallb_forall in H. specialize (H pr (dom_promo_In pr Hp)).
-  rewrite forallb_forall in H. specialize (H ck Hc).
+  pose proof (forallb_In _ _ _ k scan_all_true (dom_kind_In k Hk)) as H1. cbv beta in H1.
+  pose proof (forallb_In _ _ _ uf H1 (dom_opt8_In uf Hf)) as H2. cbv beta in H2.
+  pose proof (forallb_In _ _ _ ur H2 (dom_opt8_In ur Hr)) as H3. cbv beta in H3.
+  pose proof (forallb_In _ _ _ cap H3 (dom_bool_In cap)) as H4. cbv beta in H4.
+  pose proof (forallb_In _ _ _ t H4 (dom_sq_In t Ht)) as H5. cbv beta in H5.
+  pose proof (forallb_In _ _ _ pr H5 (dom_promo_In pr Hp)) as H6. cbv beta in H6.
+  pose proof (forallb_In _ _ _ ck H6 Hc) as H. cbv beta in H.
   unfold scan_ok in H. destruct (san_parse (san_text k uf ur cap t pr ck)) as [q|]; [|discriminate H].
   apply mquery_eqb_eq in H. rewrite H. reflexivity.
 Qed.
@@ -215,10 +216,10 @@ Proof. intros [p|] H; [|left; reflexivity]. cbn in H. destruct p; try discrimina
 Theorem lan_text_parse : forall o d pr, o < 64 -> d < 64 -> opt_promo_ok pr ->
   uci_move_query (sq_text o ++ sq_text d ++ lower_promo_text pr) = Ok (coord_q o d pr).
 Proof.
-  intros o d pr Ho Hd Hp. pose proof lan_all_true as H.
-  rewrite forallb_forall in H. specialize (H o (dom_sq_In o Ho)).
-  rewrite forallb_forall in H. specialize (H d (dom_sq_In d Hd)).
-  rewrite forallb_forall in H. specialize (H pr (dom_opromo_In pr Hp)).
+  intros o d pr Ho Hd Hp.
+  pose proof (forallb_In _ _ _ o lan_all_true (dom_sq_In o Ho)) as H1. cbv beta in H1.
+  pose proof (forallb_In _ _ _ d H1 (dom_sq_In d Hd)) as H2. cbv beta in H2.
+  pose proof (forallb_In _ _ _ pr H2 (dom_opromo_In pr Hp)) as H. cbv beta in H.
   unfold lan_ok in H.
   destruct (uci_move_query (sq_text o ++ sq_text d ++ lower_promo_text pr)) as [q| |]; try discriminate H.
   apply mquery_eqb_eq in H. rewrite H. reflexivity.
